@@ -12,6 +12,7 @@ use std::sync::Arc;
 
 static PANICS: AtomicUsize = AtomicUsize::new(0);
 
+#[derive(Clone)]
 struct PeerPlan {
     pieces: Vec<bool>,
     /// close the connection after this many `Piece` messages (None = honest: stays until told to stop)
@@ -79,15 +80,31 @@ fn run_peer(
     stop: Arc<AtomicBool>,
     served: Arc<AtomicUsize>,
 ) {
+    // every connection to this address is served the same way (the client normally opens one)
     listener.set_nonblocking(true).ok();
-    let mut r = Rng::new(plan.seed);
-    let mut s = loop {
+    loop {
         match listener.accept() {
-            Ok((s, _)) => break s,
+            Ok((s, _)) => {
+                let (plan, content, stop, served) = (plan.clone(), content.clone(), stop.clone(), served.clone());
+                std::thread::spawn(move || serve_conn(s, plan, id, info_hash, content, pl, stop, served));
+            }
             Err(_) if !stop.load(Ordering::SeqCst) => std::thread::sleep(std::time::Duration::from_millis(2)),
             Err(_) => return,
         }
-    };
+    }
+}
+
+fn serve_conn(
+    mut s: std::net::TcpStream,
+    plan: PeerPlan,
+    id: [u8; 20],
+    info_hash: [u8; 20],
+    content: Arc<Vec<u8>>,
+    pl: usize,
+    stop: Arc<AtomicBool>,
+    served: Arc<AtomicUsize>,
+) {
+    let mut r = Rng::new(plan.seed);
     s.set_nonblocking(false).ok();
     s.set_nodelay(true).ok();
     s.set_read_timeout(Some(std::time::Duration::from_millis(50))).ok();
@@ -116,6 +133,8 @@ fn run_peer(
         return;
     }
     let mut buf: Vec<u8> = vec![];
+    let mut reorder = plan.seed % 3 == 0 && plan.drop_after.is_none();
+    let mut reorder_again = false;
     let mut unchoked = false;
     let mut sent = 0usize;
     let mut tmp = [0u8; 65536];
@@ -142,6 +161,18 @@ fn run_peer(
             let len = u32::from_be_bytes([buf[0], buf[1], buf[2], buf[3]]) as usize;
             if buf.len() < 4 + len {
                 break;
+            }
+            // an honest peer may answer pipelined requests in any order: one peer in three serves the younger of two
+            // buffered requests first
+            if reorder && len == 13 && buf[4] == 6 && buf.len() >= 34 && buf[17..21] == [0, 0, 0, 13] && buf[21] == 6 {
+                let first: Vec<u8> = buf.drain(..17).collect();
+                let second: Vec<u8> = buf.drain(..17).collect();
+                let rest = std::mem::take(&mut buf);
+                buf.extend_from_slice(&second);
+                buf.extend_from_slice(&first);
+                buf.extend_from_slice(&rest);
+                reorder = false; // swap this pair once, then look again at the next request
+                reorder_again = true;
             }
             let frame: Vec<u8> = buf.drain(..4 + len).collect();
             if len == 0 {
@@ -188,6 +219,10 @@ fn run_peer(
                     }
                     sent += 1;
                     served.fetch_add(1, Ordering::SeqCst);
+                    if reorder_again && sent % 2 == 0 {
+                        reorder = true;
+                        reorder_again = false;
+                    }
                     if plan.choke_first && sent == 1 {
                         if !write_segmented(&mut s, &msg(0, &[]), &mut r) {
                             return;
@@ -307,6 +342,11 @@ pub fn child(seed: u64, pl: usize, lens: &str, honest: usize, droppers: usize, m
         }
         let (c, sv) = (content.clone(), served.clone());
         std::thread::spawn(move || run_peer(l, plan, id, info_hash, c, pl, my_stop, sv));
+    }
+    // one run in three: the tracker lists every peer twice (the second entry must not become a second connection)
+    if seed % 3 == 0 {
+        let again = entries.clone();
+        entries.extend(again);
     }
     let reply = tracker_reply(&entries);
     std::thread::spawn(move || loop {
